@@ -92,4 +92,43 @@ CHECKS = {
                    "saved crashers are the reproducible unit and are replayed through the same oracle.",
         assumptions=["little-endian host (the decoder reinterprets the payload in place)"],
     ),
+    "C05": dict(
+        pkg=".", hdir="root", test="TestVerif_C05",
+        quick=dict(shards=16, checks=4000, timeout=400),
+        thorough=dict(shards=16, checks=60000, timeout=3000),
+        technique="stateful property-based testing (rapid) with independent file decoders (written from doc/LJH.md, the LJH3 layout and OFF 0.3.0) as round-trip oracle",
+        rule="rapid-generated channel/geometry parameters (indices and geometry 0..65535, names without whitespace, 8 time bases, sub-frame "
+             "divisions/offsets, 1-6 bases with arbitrary finite float64 projector/basis entries incl. +-MaxFloat64 and denormals), every "
+             "non-empty subset of {LJH2.2, LJH3, OFF}, and a history of 1-12 publish(1-3 records)/flush/pause/unpause operations followed "
+             "by stop; record frames and times incl. 0, negative, +-2^62 and MaxInt64, variable lengths for LJH3-only; files are decoded "
+             "after every flush and after stop; non-trivial = >= 2 accepted records and a flush or pause between writes; distinct = FNV-64 of the case",
+        level_text="The DataPublisher is driven through its real Set*/PublishData/SetPause/Flush/Remove* calls; after every flush and after "
+                   "stop each file is parsed by an independent decoder and must state the generated parameters (record/pre-trigger length, "
+                   "time base to 7 digits, channel name/number/index, rows/cols/row/col, sub-frame parameters, bit-exact matrices) and "
+                   "contain exactly the records published while unpaused, in order, with exact samples/coefficients/frames/timestamps, "
+                   "and have length header + sum of record sizes.",
+        level_note="The LJH header key 'Digitized Word Size In Bytes' (doc: '...in Bytes') is not judged; word size is the documented "
+                   "constant 2. LJH3 Row/Column cannot be passed through SetLJH3 and are checked at the WriteControl level (C19). "
+                   "The stale pre-0.3.0 record comment at the top of off/off.go is a documentation remark only.",
+        assumptions=["records handed to a publisher with LJH2.2/OFF enabled have the configured length (other lengths are rejected by the writers)",
+                     "sub-frame product frame*divisions+offset stays inside int64"],
+    ),
+    "C07": dict(
+        pkg=".", hdir="root", test="TestVerif_C07[AB]", ids=["C07A", "C07B"],
+        quick=dict(shards=16, checks=1500, timeout=600),
+        thorough=dict(shards=16, checks=25000, timeout=3000),
+        technique="property-based testing (rapid) with a harness-owned disk: gate writer under asyncbufio, FIFO under the real LJH/OFF writers; byte-exact stream oracle",
+        rule="(A) rapid-generated interleavings (1-60 ops) of Write(0..9000 bytes)/Flush/Close/gate-open/gate-close on asyncbufio.Writer with "
+             "queue depth 1..16 over a gate writer; (B) real ljh.Writer / ljh.Writer3 / off.Writer with FileName = FIFO (pipe size 4-64 KiB, "
+             "record lengths 1..257 samples, 1-5 bases): records while the far end reads, then the far end stops reading until WriteRecord "
+             "is rejected (queue full), 0-9 further attempts, then the far end resumes and 1-6 more records, optional Flush, Close. "
+             "non-trivial = the queue-full path was reached (>= 1 rejected write) AND >= 1 write was accepted afterwards; distinct = FNV-64 of the case",
+        level_text="The bytes that reached the far side after Flush/Close returned must equal, byte for byte, the header followed by the "
+                   "concatenation in order of exactly those writes/records whose call returned nil; a rejected record must contribute zero "
+                   "bytes. Where the queue fills relative to a record depends on the writer goroutine, which changes which case exposes a torn "
+                   "record, never the verdict.",
+        level_note="Pacing sleeps (<= 0.4 s total per case) are only used to wait for queue room after the disk resumes; a far end that never "
+                   "reaches EOF within 20 s or a rejection while the disk is alive is reported as inconclusive, not as a violation.",
+        assumptions=["Flush/Close are only required to return while the disk is alive (they block by design otherwise)"],
+    ),
 }
